@@ -7,7 +7,9 @@ package main
 
 import (
 	"fmt"
+	"go/ast"
 	"go/token"
+	"go/types"
 	"sort"
 	"strings"
 )
@@ -28,6 +30,7 @@ func checkC16(p *Prog, r *Report) {
 	// sowing, harvest and window dates are text in the configured date format
 	dateTextRules(p, r, "C16.R11")
 	inputHelpers(p, r, "C16.R12")
+	dateFrameRule(p, r, "C16.R13")
 }
 
 // C16.R9 — "with fixed dates sowing and harvest happen on the dates of the
@@ -679,4 +682,145 @@ func c16FixedWindow(p *Prog, r *Report) {
 		}
 		r.Ob("fixed-window:"+shortRoot(w.root), pos, ok, det)
 	}
+}
+
+// ---------------------------------------------------------------- one field, one reference frame for dates
+
+// dateFrameRule: the date converter returns two numbers — the day of the year and the absolute day number the day
+// loop counts in.  A state variable that receives the absolute number at one site and the day of the year at another
+// is compared with the day counter in the wrong frame after the second (a latest harvest date of a few hundred lies
+// decades before the start: the crop is never grown and the rotation stalls).  Contradiction rule, no table: the
+// frame of a variable is what the majority of its stores from converter results say; a store in the other frame is
+// reported.  Variables that only ever receive one kind are fine either way.
+func dateFrameRule(p *Prog, r *Report, rule string) {
+	r.Rule(rule, "one reference frame per date variable: a state variable fed from the date converter receives either its day-of-the-year result or its absolute-day result at every site, never both (directly or through a local that was assigned that result)", 1)
+	type site struct {
+		pos  string
+		kind int // 0 day of year, 1 absolute
+		via  string
+	}
+	fields := map[string][]site{}
+	var keys []string
+	for k := range p.Funcs {
+		keys = append(keys, k)
+	}
+	sort.Strings(keys)
+	nCalls := 0
+	for _, k := range keys {
+		fi := p.Funcs[k]
+		if fi.Pkg != p.Hermes || fi.Decl.Body == nil {
+			continue
+		}
+		info := fi.Pkg.TypesInfo
+		fieldOf := func(e ast.Expr) string {
+			for {
+				switch t := e.(type) {
+				case *ast.ParenExpr:
+					e = t.X
+					continue
+				case *ast.IndexExpr:
+					e = t.X
+					continue
+				case *ast.SelectorExpr:
+					if sel, ok := info.Selections[t]; ok && sel.Kind() == types.FieldVal {
+						name, _ := namedStruct(sel.Recv())
+						return name + "." + t.Sel.Name
+					}
+				}
+				return ""
+			}
+		}
+		isConv := func(e ast.Expr) bool {
+			c, ok := ast.Unparen(e).(*ast.CallExpr)
+			if !ok {
+				return false
+			}
+			switch f := c.Fun.(type) {
+			case *ast.SelectorExpr:
+				return f.Sel.Name == "Datum"
+			case *ast.Ident:
+				return f.Name == "Datum"
+			}
+			return false
+		}
+		locals := map[types.Object]int{}
+		// pass 1: results of converter calls
+		ast.Inspect(fi.Decl.Body, func(n ast.Node) bool {
+			as, ok := n.(*ast.AssignStmt)
+			if !ok || len(as.Lhs) != 2 || len(as.Rhs) != 1 || !isConv(as.Rhs[0]) {
+				return true
+			}
+			nCalls++
+			for kind, l := range as.Lhs {
+				if id, ok := l.(*ast.Ident); ok {
+					if id.Name == "_" {
+						continue
+					}
+					o := info.Defs[id]
+					if o == nil {
+						o = info.Uses[id]
+					}
+					if o != nil {
+						if old, seen := locals[o]; seen && old != kind {
+							locals[o] = 2 // reused for both: no statement
+						} else if !seen {
+							locals[o] = kind
+						}
+					}
+					continue
+				}
+				if f := fieldOf(l); f != "" {
+					fields[f] = append(fields[f], site{p.Pos(l.Pos()), kind, "converter result"})
+				}
+			}
+			return true
+		})
+		// pass 2: plain copies of such locals into fields
+		ast.Inspect(fi.Decl.Body, func(n ast.Node) bool {
+			as, ok := n.(*ast.AssignStmt)
+			if !ok || len(as.Lhs) != len(as.Rhs) {
+				return true
+			}
+			for i, l := range as.Lhs {
+				id, ok := ast.Unparen(as.Rhs[i]).(*ast.Ident)
+				if !ok {
+					continue
+				}
+				kind, has := locals[info.Uses[id]]
+				if !has || kind == 2 {
+					continue
+				}
+				if f := fieldOf(l); f != "" {
+					fields[f] = append(fields[f], site{p.Pos(l.Pos()), kind, "local " + id.Name})
+				}
+			}
+			return true
+		})
+	}
+	var fs []string
+	for f := range fields {
+		fs = append(fs, f)
+	}
+	sort.Strings(fs)
+	nBad := 0
+	for _, f := range fs {
+		n := [2]int{}
+		for _, s := range fields[f] {
+			n[s.kind]++
+		}
+		if n[0] == 0 || n[1] == 0 {
+			continue
+		}
+		minority := 0
+		if n[0] > n[1] {
+			minority = 1
+		}
+		for _, s := range fields[f] {
+			if s.kind == minority || n[0] == n[1] {
+				nBad++
+				r.Ob("date-frame:"+f, s.pos, false, fmt.Sprintf("%s receives the converter's %s here (%s) but its %s at %d other site(s): the variable is compared with the day counter in one frame only", f, [2]string{"day of the year", "absolute day number"}[s.kind], s.via, [2]string{"day of the year", "absolute day number"}[1-s.kind], n[1-s.kind]))
+			}
+		}
+	}
+	r.Ob("date-frame:scanned", "-", nCalls >= 10 && nBad == 0, fmt.Sprintf("%d converter calls with both results bound, %d state variables fed from them, none in two frames", nCalls, len(fs)))
 }
